@@ -225,11 +225,12 @@ pub fn reg_sx(reg: &Registry) -> String {
     format!("(reg {})", pk.join(" "))
 }
 
-pub struct RunOut { pub trace: Vec<Ev>, pub result: String, pub branching: Vec<u32> }
+pub struct RunOut { pub trace: Vec<Ev>, pub result: String, pub branching: Vec<u32>, pub report: String, pub store: String }
 
 pub fn run_once<N: Name>(reg: &Registry, root: (u32, u32), choose: &ChooseMode, prio: &PrioMode, script: &[u32], fault: &Fault) -> RunOut {
     let prov: Prov<N> = Prov::new(reg, choose.clone(), prio.clone(), script.to_vec(), fault.clone());
     let r = std::panic::catch_unwind(std::panic::AssertUnwindSafe(|| resolve(&prov, N::of(root.0), root.1)));
+    let mut report = String::new();
     let result = match r {
         Err(_) => "(panic)".to_string(),
         Ok(Ok(sol)) => {
@@ -237,14 +238,34 @@ pub fn run_once<N: Name>(reg: &Registry, root: (u32, u32), choose: &ChooseMode, 
             s.sort();
             format!("(ok ({}))", s.iter().map(|(p, v)| format!("({} {})", p, v)).collect::<Vec<_>>().join(" "))
         }
-        Ok(Err(PubGrubError::NoSolution(t))) => format!("(nosol {})", tree_sx(&t)),
+        Ok(Err(PubGrubError::NoSolution(t))) => {
+            // the default text report and the Debug rendering (both depend on map iteration order)
+            use pubgrub::Reporter;
+            report = format!("{}\n{:?}", pubgrub::DefaultStringReporter::report(&t), t);
+            format!("(nosol {})", tree_sx(&t))
+        }
         Ok(Err(PubGrubError::ErrorInShouldCancel(e))) => if e.0 == "budget" { "(budget)".into() } else { "(errcancel)".into() },
         Ok(Err(PubGrubError::ErrorChoosingPackageVersion(_))) => "(errchoose)".into(),
         Ok(Err(PubGrubError::ErrorRetrievingDependencies { package, version, .. })) => format!("(errdeps {} {})", package.id(), version),
         Ok(Err(PubGrubError::Failure(m))) => format!("(failure {})", if m.contains("incompatible") { 1 } else { 0 }),
     };
     let sh = prov.sh.into_inner();
-    RunOut { trace: sh.trace, result, branching: sh.branching }
+    RunOut { trace: sh.trace, result, branching: sh.branching, report, store: store_sx() }
+}
+
+/// the incompatibility store of the resolution that just finished on this thread (cfg hook)
+pub fn store_sx() -> String {
+    let entries = pubgrub::verif_store::take();
+    let es: Vec<String> = entries.iter().map(|e| {
+        let mut ts: Vec<(u32, String)> = e.terms.iter().map(|(p, pos, set)| {
+            let pid: u32 = p.strip_prefix("pkg-").unwrap_or(p).parse().expect("package name");
+            (pid, format!("({} {})", if *pos { "p" } else { "n" }, crate::ranges::segs_sx(&crate::ranges::parse_display(set))))
+        }).collect();
+        ts.sort();
+        let ts: Vec<String> = ts.iter().map(|(p, t)| format!("({} {})", p, t)).collect();
+        format!("({} {} ({}))", e.kind, match e.causes { Some((a, b)) => format!("({} {})", a, b), None => "none".into() }, ts.join(" "))
+    }).collect();
+    format!("(store {})", es.join(" "))
 }
 
 fn nontrivial(o: &RunOut) -> bool {
@@ -262,19 +283,46 @@ pub fn emit_run(out: &mut Out, tag: &str, names: &str, reg: &Registry, root: (u3
     let case = format!("({} {} {} (root {} {}) (trace {}){})", tag, names, reg_sx(reg), root.0, root.1, tr.join(" "), extra);
     out.n += 1;
     use std::io::Write;
-    writeln!(out.w, "{}\t{}\t{}", case, o.result, nontrivial(o) as u8).unwrap();
+    let mut h: u64 = 0xcbf29ce484222325;
+    for b in o.report.bytes() { h = (h ^ b as u64).wrapping_mul(0x100000001b3); }
+    writeln!(out.w, "{}\t(res {}) {}\t{}\t{:016x}", case, o.result, o.store, nontrivial(o) as u8, h).unwrap();
+}
+
+/// a long-lived second thread on which every case is repeated (thread-local state must not matter)
+pub struct Job { reg: Registry, root: (u32, u32), choose: ChooseMode, prio: PrioMode, script: Vec<u32>, strings: bool }
+thread_local! {
+    static WORKER: (std::sync::mpsc::Sender<Job>, std::sync::mpsc::Receiver<(Vec<Ev>, String, String, String)>) = {
+        let (tx, rx) = std::sync::mpsc::channel::<Job>();
+        let (tx2, rx2) = std::sync::mpsc::channel();
+        std::thread::spawn(move || {
+            std::panic::set_hook(Box::new(|_| {}));
+            for j in rx {
+                let o = if j.strings { run_once::<String>(&j.reg, j.root, &j.choose, &j.prio, &j.script, &Fault::None) }
+                        else { run_once::<u32>(&j.reg, j.root, &j.choose, &j.prio, &j.script, &Fault::None) };
+                if tx2.send((o.trace, o.result, o.report, o.store)).is_err() { break; }
+            }
+        });
+        (tx, rx2)
+    };
+}
+fn on_worker(reg: &Registry, root: (u32, u32), choose: &ChooseMode, prio: &PrioMode, script: &[u32], strings: bool) -> (Vec<Ev>, String, String, String) {
+    WORKER.with(|w| {
+        w.0.send(Job { reg: reg.clone(), root, choose: choose.clone(), prio: prio.clone(), script: script.to_vec(), strings }).unwrap();
+        w.1.recv().unwrap()
+    })
 }
 
 /// run with both name types, check in-process repeatability, emit
 pub fn run_and_emit(out: &mut Out, reg: &Registry, root: (u32, u32), choose: &ChooseMode, prio: &PrioMode, script: &[u32], strings: bool) -> RunOut {
     let a = run_once::<u32>(reg, root, choose, prio, script, &Fault::None);
-    let b = run_once::<u32>(reg, root, choose, prio, script, &Fault::None);
-    let det = a.trace == b.trace && a.result == b.result;
+    // the repetition runs on a fresh thread (thread-local state must not matter either)
+    let b = on_worker(reg, root, choose, prio, script, false);
+    let det = a.trace == b.0 && a.result == b.1 && a.report == b.2 && a.store == b.3;
     emit_run(out, "solve", "int", reg, root, &a, &format!(" (det {})", det as u8));
     if strings {
         let c = run_once::<String>(reg, root, choose, prio, script, &Fault::None);
-        let d = run_once::<String>(reg, root, choose, prio, script, &Fault::None);
-        let det = c.trace == d.trace && c.result == d.result;
+        let d = on_worker(reg, root, choose, prio, script, true);
+        let det = c.trace == d.0 && c.result == d.1 && c.report == d.2 && c.store == d.3;
         emit_run(out, "solve", "str", reg, root, &c, &format!(" (det {})", det as u8));
     }
     a
@@ -399,6 +447,42 @@ pub fn random_registry(rng: &mut Rng) -> Registry {
     reg
 }
 
+/// conflict-rich scope: 3-4 packages + an unknown one, 2-3 versions, many unavailable versions and
+/// dependencies on sets without versions, mostly wide sets (so that re-decisions after a backtrack occur)
+pub fn scenario_registry(rng: &mut Rng) -> Registry {
+    let mut reg = Registry::default();
+    let np = 3 + rng.below(2) as u32;
+    let nv = 2 + rng.below(2) as u32;
+    let sets = [vec![(Unbounded, Unbounded)], vec![(Unbounded, Unbounded)], vec![(Included(1u32), Included(1u32))],
+                vec![(Included(2u32), Included(2u32))], vec![(Included(2u32), Unbounded)], vec![(Unbounded, Excluded(2u32))],
+                vec![(Included(9u32), Included(9u32))], vec![]];
+    for p in 0..np {
+        for v in 1..=nv {
+            if p > 0 && rng.chance(1, 8) { continue; }
+            if p > 0 && rng.chance(1, 4) { reg.pkgs.entry(p).or_default().insert(v, None); continue; }
+            let nd = if p == 0 { 1 + rng.below(3) } else { rng.below(3) };
+            let mut ds: Vec<(u32, R)> = vec![];
+            for _ in 0..nd {
+                let q = if p == 0 { 1 + rng.below(np as u64 - 1) as u32 } else { rng.below(np as u64 + 1) as u32 };
+                if ds.iter().any(|(x, _)| *x == q) { continue; }
+                ds.push((q, mk(&sets[rng.below(sets.len() as u64) as usize])));
+            }
+            reg.pkgs.entry(p).or_default().insert(v, Some(ds));
+        }
+    }
+    reg
+}
+
+fn all_perms(n: usize) -> Vec<Vec<i64>> {
+    fn rec(cur: &mut Vec<i64>, used: &mut Vec<bool>, n: usize, out: &mut Vec<Vec<i64>>) {
+        if cur.len() == n { out.push(cur.clone()); return; }
+        for i in 0..n { if !used[i] { used[i] = true; cur.push(i as i64); rec(cur, used, n, out); cur.pop(); used[i] = false; } }
+    }
+    let mut out = vec![];
+    rec(&mut vec![], &mut vec![false; n], n, &mut out);
+    out
+}
+
 fn perm(rng: &mut Rng, n: usize) -> Vec<i64> {
     let mut v: Vec<i64> = (0..n as i64).collect();
     for i in (1..n).rev() { let j = rng.below(i as u64 + 1) as usize; v.swap(i, j); }
@@ -420,6 +504,22 @@ pub fn generate(out: &mut Out, rng: &mut Rng, thorough: bool, which: &str) {
             let reg = small_registry(rng);
             let rv = 1 + rng.below(3) as u32;
             enumerate_scripts(out, &reg, (0, rv), if thorough { 32 } else { 6 }, rng.chance(1, 2));
+        }
+        // conflict-rich scope: newest/oldest choice x every static priority order of the packages
+        let nscen = if thorough { 40000 } else { 1500 };
+        for _ in 0..nscen {
+            let reg = scenario_registry(rng);
+            let rv = 1 + rng.below(2) as u32;
+            let np = reg.pkgs.keys().max().copied().unwrap_or(0) as usize + 2;
+            let perms = all_perms(np.min(5));
+            for choose in [ChooseMode::Newest, ChooseMode::Oldest] {
+                // a seeded third of the permutations (quick) / all (thorough)
+                for (i, pm) in perms.iter().enumerate() {
+                    if !thorough && (i as u64 + rng.below(3)) % 3 != 0 { continue; }
+                    let mut pm = pm.clone(); pm.resize(np + 1, -1);
+                    run_and_emit(out, &reg, (0, rv), &choose, &PrioMode::Static(pm), &[], false);
+                }
+            }
         }
         let nrand = if thorough { 100000 } else { 2500 };
         for _ in 0..nrand {
